@@ -15,6 +15,11 @@ code -> model : the identity schemas (variables, domain boxes, guards) are insta
                 residual in integer units) and spec/SpecialTrace.tla accepts the trace iff every event
                 names a schema, lies in its domain, has finite library values and a residual <= K.
 
+purity        : spec/SpecialPure.tla states "the value is a function of the arguments only" for a lazily extended table
+                (TLC: holds with the guard, fails without); the pure families of SpecialDefs.tla are executed in fresh
+                processes sequentially forward / backward and from several goroutines at once (race detector on):
+                all results must have identical bits.
+
 NOT decided: accuracy BETWEEN the enumerated / sampled points against a multi-precision reference
 (a domain-wide sweep is outside what a TLA+ specification can own).
 """
@@ -24,8 +29,8 @@ import vlib
 
 LEVEL = "model_checking"
 BOUNDS = {
-    "quick": dict(cfg="SpecialValues.cfg", grid1=0, grid2=0, events=6000),
-    "thorough": dict(cfg="SpecialValues_grid.cfg", grid1=400, grid2=24, events=400000),
+    "quick": dict(cfg="SpecialValues.cfg", grid1=0, grid2=0, events=6000, pure_runs=6, goroutines=8),
+    "thorough": dict(cfg="SpecialValues_grid.cfg", grid1=400, grid2=24, events=400000, pure_runs=60, goroutines=8),
 }
 
 # (family | branch label) pairs the enumeration must reach (vacuity control): every algorithm branch
@@ -43,6 +48,12 @@ REQUIRED_BRANCHES = [
     "polygamma.half|x = 1/2", "polygamma.half|asymptotic", "polygamma.intz|asymptotic",
     "gammap.tiny|leading term", "gammalower.tiny|leading term", "gammap.edge|GammaPsecondDerivative",
     "logerfc.asym|x > 8", "besseli.gen|integer orders", "logadd.inf|infinite operand",
+    "gammad1.tiny|normal", "gammad1.tiny|band", "gammad1.tiny|deep", "gammad2.tiny|deep", "gammad2.tiny|first derivative lost",
+    "gammaupper.big|fraction in logs", "gammaupper.big|Q and lgamma", "gammalower.big|series in logs", "gammalower.big|P and lgamma",
+    "gammad1.big|large a", "besseli.series|series", "besseli.series|series, log prefix", "besseli.series|CF1 + Wronskian",
+    "logbesseli.series|series, log prefix", "logbesseli.series|CF1 + Wronskian",
+    "polygamma.huge|logs", "polygamma.huge|asymptotic", "polygamma.highrec|reflection, generated row", "zeta.refl|lgamma form",
+    "zeta.refl|gamma form",
 ]
 REQUIRED_FAMILIES = [
     "digamma.rec", "digamma.refl", "digamma.dup", "trigamma.rec", "trigamma.refl", "trigamma.dup",
@@ -52,8 +63,10 @@ REQUIRED_FAMILIES = [
     "gammap.half.0", "gammaq.half.29", "gammad1.half.30", "gammap.pq", "gammap.lu", "gammap.lowerp", "gammap.upperq", "gammap.rec",
     "gammap.d1", "gammap.d2", "logerfc.small", "logerfc.erfc", "logerfc.asym",
     "besseli.half.0", "besseli.half.9", "logbesseli.half.4", "logbesseli.half.9", "besseli.rec", "logbesseli.log", "logbesseli.rec",
-    "besseli.negint", "logadd.lin", "logsub.lin", "logadd.rat", "logsub.rat",
+    "besseli.negint", "logadd.lin", "logsub.lin", "logadd.rat", "logsub.rat", "logbesseli.negseries", "logbesseli.rec2",
 ]
+PURE_FAMILIES = ["pure.polygamma.reflection", "pure.polygamma.positive", "pure.zeta", "pure.bernoulli.factorial",
+                 "pure.digamma.trigamma", "pure.gamma.incomplete", "pure.bessel", "pure.log"]
 
 
 def base(fam):
@@ -109,6 +122,48 @@ def record(ctx, binary, cases, n, tag, env=None):
     return ok, bad, why, trace, events
 
 
+def check_purity(ctx, cases, b, only=None):
+    """SpecialPure.tla: the guarded table is pure for every interleaving, the unguarded one is not (the counterexample is the
+    schedule the driver provokes); then the pure families on the real library, race detector on."""
+    if only is None:
+        ctx.tlc("SpecialPure", "SpecialPure_locked.cfg", workers=2, timeout=600, label="pure-locked")
+        bad = ctx.tlc("SpecialPure", "SpecialPure_unlocked.cfg", workers=2, timeout=600, label="pure-unlocked", allow_violation=True)
+        if not (set(bad.violated) & {"Pure", "TableSound"}):
+            raise vlib.Infra("vacuity: the unguarded table model does not violate Pure (%s)" % bad.errors[:2])
+    racebin = ctx.go_build("special", race=True)
+    src = cases
+    if only is not None:
+        src = ctx.path("pure-only.ndjson")
+        with open(cases) as f, open(src, "w") as g:
+            for ln in f:
+                if '"kind":"pure"' in ln and ('"fam":"%s"' % only) in ln:
+                    g.write(ln)
+    results = ctx.path("special-pure.ndjson")
+    ctx.run([racebin, "pure", src, results, str(b["pure_runs"]), str(b["goroutines"])], timeout=3000)
+    summ, fams = None, []
+    for r in vlib.iter_ndjson(results):
+        if r["kind"] == "mismatch":
+            ctx.violation(r["sig"], r["detail"])
+        elif r["kind"] == "pure_family":
+            fams.append(r)
+        elif r["kind"] == "summary":
+            summ = r
+    if summ is None or "children" not in summ:
+        raise vlib.Infra("purity driver wrote no summary")
+    if only is None:
+        missing = [f for f in PURE_FAMILIES if f not in [x["fam"] for x in fams]]
+        if missing:
+            raise vlib.Infra("vacuity: pure families not executed: %s" % missing)
+        if not summ.get("race_detector"):
+            raise vlib.Infra("purity driver was not built with the race detector")
+    ctx.traces += summ["children"]
+    ctx.log("purity: %d families, %d fresh processes, %d evaluations compared bit for bit, race detector on" % (
+        summ["families"], summ["children"], summ["evaluations"]))
+    if fams:
+        ctx.sample({"pure_family": fams[0]})
+    return summ
+
+
 def report_rejected(ctx, events, bad, why):
     ev = events[bad - 1] if bad and bad <= len(events) else None
     what = "rejected"
@@ -144,6 +199,8 @@ def run(ctx):
             if want in ln:
                 ctx.sample({"case": json.loads(ln)})
                 break
+    # purity: no hidden state (model SpecialPure.tla; the driver runs the pure families in fresh processes)
+    pure_summary = check_purity(ctx, cases, b)
     # code -> model
     ok, bad, why, trace, events = record(ctx, binary, cases, b["events"], "main")
     rmax = {}
@@ -184,6 +241,11 @@ def run(ctx):
                                 "(cancellation in the closed form): compared, but insensitive",
                                 "by_family": {k: sum(1 for w in weak if base(w["fam"]) == k) for k in sorted(set(base(w["fam"]) for w in weak))}}
     ctx.extra["library_calls"] = summ["lib_calls"]
+    ctx.extra["purity"] = {"model": "SpecialPure.tla: Pure and TableSound hold with the guard (all interleavings of 2 evaluators, orders 2..3), "
+                                    "violated without it (expected counterexample)",
+                           "families": pure_summary["families"], "fresh_processes": pure_summary["children"],
+                           "evaluations_compared": pure_summary["evaluations"], "goroutines": pure_summary["goroutines"],
+                           "concurrent_runs_per_family": pure_summary["runs"], "race_detector": pure_summary["race_detector"]}
     ctx.assumptions += [
         "decides closed forms at enumerated special points, recurrences / complements at enumerated and sampled dyadic points "
         "and the pole / finiteness classes; does NOT decide accuracy between those points",
@@ -206,7 +268,11 @@ def replay(ctx, path):
         v = json.load(f)
     d = v["detail"]
     binary = ctx.go_build("special")
-    if d.get("mode") == "trace":
+    if d.get("mode") == "pure":
+        b = dict(BOUNDS["quick"], pure_runs=20)
+        cases, _ = gen_cases(ctx, b)
+        check_purity(ctx, cases, b, only=d["fam"])
+    elif d.get("mode") == "trace":
         b = BOUNDS["quick"]
         cases, _ = gen_cases(ctx, b)
         ok, bad, why, trace, events = record(ctx, binary, cases, 1, "replay", env={"SPECIAL_ONLY": d["only"]})
@@ -236,7 +302,10 @@ MANIFEST = {
             "LogAdd / LogSub), (2) recurrences, reflections, complements and duplication formulas between library values at "
             "enumerated dyadic points on both sides of every algorithm-selection boundary and at seeded random points, each within "
             "K * 2^-52 * conditioning, (3) the required class (finite / +Inf / -Inf / NaN-or-error) at poles, domain edges and "
-            "overflow. It does NOT decide accuracy between those points: no domain-wide sweep against a multi-precision reference.",
+            "overflow, (4) purity: identical bits whatever was evaluated before or concurrently in the process (fresh processes, "
+            "forward / backward / concurrent, race detector; model SpecialPure.tla). Points include extreme magnitudes where an "
+            "intermediate quantity under- or overflows (tiny x, a >= 170, orders up to +-1000). It does NOT decide accuracy between "
+            "those points: no domain-wide sweep against a multi-precision reference.",
     "note": "Not claimed: relative error over the continuum (only at the enumerated / sampled points; a perturbation of an "
             "approximation that vanishes at those points, e.g. far inside a branch with no identity crossing it, is missed). "
             "Gamma/Lgamma are Go's math functions reached through Mgamma/Mlgamma. Trusted: TLC, Json module, Rat/Expr, math/big, "
